@@ -194,9 +194,9 @@ def work(shard, res, tier, seed):
             break
         if not oracle.in_domain_rsmi(rx) and rx not in NOMATCH:
             continue
-        t0 = time.time()
+        t0 = time.process_time()  # CPU time: the selection must not depend on machine load
         out, _, err = pipeline.run(b, [rx])
-        dt = time.time() - t0
+        dt = time.process_time() - t0
         if err or not out or len(out) != 1 or dt > 0.6 or tainted(out[0]):
             res.count("candidates_too_slow_or_failed")
             continue
